@@ -273,6 +273,12 @@ type solverSpec struct {
 
 var solvers = []solverSpec{
 	{"z3-new-5.1.0", func(f string, t int) []string { return []string{"z3-new", fmt.Sprintf("-T:%d", t), f} }, ""},
+	{"z3-new-5.1.0/arith2", func(f string, t int) []string {
+		return []string{"z3-new", fmt.Sprintf("-T:%d", t), "smt.arith.solver=2", f}
+	}, ""},
+	{"z3-new-5.1.0/norelevancy", func(f string, t int) []string {
+		return []string{"z3-new", fmt.Sprintf("-T:%d", t), "smt.relevancy=0", f}
+	}, ""},
 	{"z3-4.8.12", func(f string, t int) []string { return []string{"z3", fmt.Sprintf("-T:%d", t), f} }, ""},
 	{"cvc5-1.0.3", func(f string, t int) []string {
 		return []string{"cvc5", "--incremental", fmt.Sprintf("--tlimit=%d", t*1000), f}
@@ -414,4 +420,92 @@ func firstLines(s string, n int) string {
 		ls = ls[:n]
 	}
 	return strings.Join(ls, " | ")
+}
+
+// SolveWith runs the named solvers only and returns the first decisive status.
+func SolveWith(name, body string, timeoutS int, names []string) string {
+	solveMu.Lock()
+	solveSeq++
+	id := solveSeq
+	solveMu.Unlock()
+	for _, sv := range solvers {
+		use := false
+		for _, n := range names {
+			if n == sv.name {
+				use = true
+			}
+		}
+		if !use {
+			continue
+		}
+		file := filepath.Join(scratch(), fmt.Sprintf("p%d.smt2", id))
+		os.WriteFile(file, []byte(sv.pre+body+"(check-sat)\n"), 0o644)
+		argv := sv.argv(file, timeoutS)
+		out, _ := exec.Command(argv[0], argv[1:]...).CombinedOutput()
+		os.Remove(file)
+		first := strings.TrimSpace(strings.SplitN(string(out), "\n", 2)[0])
+		if first == "unsat" || first == "sat" {
+			return first
+		}
+	}
+	return "unknown"
+}
+
+// SolveOne runs a single solver and returns its answer with the model.
+func SolveOne(name, body string, timeoutS int, solver string) SolveResult {
+	solveMu.Lock()
+	solveSeq++
+	id := solveSeq
+	solveMu.Unlock()
+	res := SolveResult{Status: "unknown", All: map[string]string{}}
+	for _, sv := range solvers {
+		if sv.name != solver {
+			continue
+		}
+		file := filepath.Join(scratch(), fmt.Sprintf("o%d.smt2", id))
+		os.WriteFile(file, []byte(sv.pre+body+"(check-sat)\n(get-model)\n"), 0o644)
+		t0 := time.Now()
+		argv := sv.argv(file, timeoutS)
+		out, _ := exec.Command(argv[0], argv[1:]...).CombinedOutput()
+		os.Remove(file)
+		first := strings.TrimSpace(strings.SplitN(string(out), "\n", 2)[0])
+		res.Secs = time.Since(t0).Seconds()
+		res.Solver = sv.name
+		if first == "unsat" || first == "sat" {
+			res.Status = first
+			if first == "sat" {
+				res.Model = string(out)
+			}
+		}
+	}
+	return res
+}
+
+func solveOneCtx(ctx context.Context, name, body string, timeoutS int, solver string) SolveResult {
+	solveMu.Lock()
+	solveSeq++
+	id := solveSeq
+	solveMu.Unlock()
+	res := SolveResult{Status: "unknown"}
+	for _, sv := range solvers {
+		if sv.name != solver {
+			continue
+		}
+		file := filepath.Join(scratch(), fmt.Sprintf("c%d.smt2", id))
+		os.WriteFile(file, []byte(sv.pre+body+"(check-sat)\n(get-model)\n"), 0o644)
+		t0 := time.Now()
+		argv := sv.argv(file, timeoutS)
+		out, _ := exec.CommandContext(ctx, argv[0], argv[1:]...).CombinedOutput()
+		os.Remove(file)
+		first := strings.TrimSpace(strings.SplitN(string(out), "\n", 2)[0])
+		res.Secs = time.Since(t0).Seconds()
+		res.Solver = sv.name
+		if first == "unsat" || first == "sat" {
+			res.Status = first
+			if first == "sat" {
+				res.Model = string(out)
+			}
+		}
+	}
+	return res
 }
